@@ -42,9 +42,13 @@ import (
 	gatewayv1 "sigs.k8s.io/gateway-api/apis/v1"
 
 	meshconfig "istio.io/api/mesh/v1alpha1"
+	networking "istio.io/api/networking/v1alpha3"
 	networkingclient "istio.io/client-go/pkg/apis/networking/v1"
 	"istio.io/istio/pilot/pkg/features"
 	"istio.io/istio/pilot/pkg/model"
+	"istio.io/istio/pilot/pkg/networking/core"
+	"istio.io/istio/pilot/pkg/util/protoconv"
+	pxds "istio.io/istio/pilot/pkg/xds"
 	txds "istio.io/istio/pilot/test/xds"
 	"istio.io/istio/pkg/config"
 	"istio.io/istio/pkg/config/schema/collections"
@@ -239,6 +243,29 @@ type world struct {
 	f       *failer
 	s       *txds.FakeDiscoveryServer
 	proxies []proxySpec
+	shared  map[string]bool // "ns/host" claimed by two or more ServiceEntries of that namespace
+}
+
+// sharedHosts lists the "namespace/host" keys that several ServiceEntries of one namespace claim.
+func sharedHosts(objs []obj) map[string]bool {
+	n := map[string]int{}
+	for _, o := range objs {
+		if o.cfg == nil {
+			continue
+		}
+		if se, ok := o.cfg.Spec.(*networking.ServiceEntry); ok {
+			for _, h := range se.Hosts {
+				n[o.cfg.Namespace+"/"+h]++
+			}
+		}
+	}
+	out := map[string]bool{}
+	for k, c := range n {
+		if c > 1 {
+			out[k] = true
+		}
+	}
+	return out
 }
 
 func (w *world) close() { w.f.done() }
@@ -334,7 +361,25 @@ func (w *world) fingerprintLines() []string {
 		for _, p := range s.Ports {
 			ports = append(ports, fmt.Sprintf("%s:%d", p.Name, p.Port))
 		}
-		lines = append(lines, fmt.Sprintf("svc %s %s %s %v", s.Hostname, s.Attributes.Namespace, s.Attributes.Name, ports))
+		// every field of the service that generation reads
+		lines = append(lines, fmt.Sprintf("svc %s %s %s %v addr=%s vips=%v res=%v ext=%v t=%d obj=%s reg=%s exportTo=%v sa=%v labels=%v sel=%v alias=%s v4=%s v6=%s",
+			s.Hostname, s.Attributes.Namespace, s.Attributes.Name, ports, s.DefaultAddress, s.ClusterVIPs.Addresses, s.Resolution, s.MeshExternal,
+			s.CreationTime.UnixNano(), s.Attributes.K8sAttributes.ObjectName, s.Attributes.ServiceRegistry, sets.SortedList(s.Attributes.ExportTo),
+			s.ServiceAccounts, s.Attributes.Labels, s.Attributes.LabelSelectors, s.Attributes.K8sAttributes.ExternalName,
+			s.AutoAllocatedIPv4Address, s.AutoAllocatedIPv6Address))
+		if features.EnableAmbient && env.AmbientIndexes != nil {
+			// the ambient index' own record of the service (asynchronous; keyed by namespace/hostname)
+			key := s.Attributes.Namespace + "/" + string(s.Hostname)
+			if si := env.AmbientIndexes.ServiceInfo(key); si != nil {
+				b, _ := proto.MarshalOptions{Deterministic: true}.Marshal(si.Service)
+				h := sha256.Sum256(b)
+				typ := "ambsvc"
+				if w.shared[key] {
+					typ = "ambsvc-shared-host"
+				}
+				lines = append(lines, fmt.Sprintf("%s %s %s src=%s/%s/%s wp=%s", typ, key, hex.EncodeToString(h[:6]), si.Source.Kind, si.Source.Namespace, si.Source.Name, si.Waypoint.ResourceName))
+			}
+		}
 	}
 	for ns, m := range env.EndpointIndex.Shardz() {
 		for svc, sh := range m {
@@ -383,7 +428,11 @@ func (w *world) fingerprintLines() []string {
 			key := model.WaypointKeyForProxy(p)
 			lines = append(lines, fmt.Sprintf("wpkey %v %v", key.Hostnames, key.Addresses))
 			for _, si := range env.AmbientIndexes.ServicesForWaypoint(key) {
-				lines = append(lines, "wpsvc "+si.ResourceName()+" "+fmt.Sprint(len(si.Service.GetPorts())))
+				typ := "wpsvc"
+				if w.shared[si.ResourceName()] {
+					typ = "ambsvc-shared-host"
+				}
+				lines = append(lines, typ+" wp "+si.ResourceName()+" "+fmt.Sprint(len(si.Service.GetPorts())))
 			}
 			for _, wi := range env.AmbientIndexes.WorkloadsForWaypoint(key) {
 				lines = append(lines, "wpwl "+wi.ResourceName())
@@ -413,29 +462,55 @@ func lineDiff(a, b []string) string {
 	return strings.Join(out, " ; ")
 }
 
-// settle waits until the fingerprint equals `want` (or, with want == "", is unchanged over a
-// quiet period). Returns the fingerprint and whether it settled.
-func (w *world) settle(want string, timeout time.Duration) (string, bool) {
+// sectionDigests hashes the fingerprint lines per section (first token of the line).
+func sectionDigests(lines []string) map[string]string {
+	by := map[string][]string{}
+	for _, l := range lines {
+		sec := l
+		if i := strings.IndexByte(l, ' '); i >= 0 {
+			sec = l[:i]
+		}
+		by[sec] = append(by[sec], l)
+	}
+	out := map[string]string{}
+	for sec, ls := range by {
+		h := sha256.Sum256([]byte(strings.Join(ls, "\n")))
+		out[sec] = strconv.Itoa(len(ls)) + "." + hex.EncodeToString(h[:8])
+	}
+	return out
+}
+
+const (
+	settled         = iota // the fingerprint equals `want` (or, without `want`, stayed unchanged over a quiet period)
+	stableDifferent        // the fingerprint stayed unchanged for `restFor` but is not `want`: the STATE depends on the insertion order
+	moving                 // still changing at the deadline
+)
+
+// settle waits until the fingerprint equals `want` (or, with want == "", is unchanged over a quiet
+// period). A fingerprint that differs from `want` but has not moved for `restFor` is reported as
+// stableDifferent: asynchronous event handling is over and the control plane holds a different state.
+func (w *world) settle(want string, timeout, restFor time.Duration) (string, int) {
 	deadline := time.Now().Add(timeout)
-	last, stable := "", 0
+	last, since, stable := "", time.Now(), 0
 	for {
 		fp := w.fingerprint()
+		if fp != last {
+			last, since, stable = fp, time.Now(), 0
+		} else {
+			stable++
+		}
 		if want != "" {
 			if fp == want {
-				return fp, true
+				return fp, settled
 			}
-		} else {
-			if fp == last {
-				stable++
-				if stable >= 6 {
-					return fp, true
-				}
-			} else {
-				last, stable = fp, 0
+			if time.Since(since) >= restFor {
+				return fp, stableDifferent
 			}
+		} else if stable >= 6 {
+			return fp, settled
 		}
 		if time.Now().After(deadline) {
-			return fp, false
+			return fp, moving
 		}
 		time.Sleep(10 * time.Millisecond)
 	}
@@ -446,6 +521,7 @@ func (w *world) settle(want string, timeout time.Duration) (string, bool) {
 type resource struct {
 	name string
 	any  *anypb.Any
+	raw  string // payload of a pseudo resource (a removed name, a cache key)
 }
 
 type snapshot map[string][]resource // "<proxy>:<TYPE>" -> resources in response order
@@ -464,16 +540,11 @@ func generate(w *world, p *model.Proxy, push *model.PushContext, typ string, nam
 	url := typeURL[typ]
 	g := w.s.Discovery.Generators[url]
 	wr := &model.WatchedResource{TypeUrl: url, ResourceNames: sets.New(names...)}
-	req := &model.PushRequest{Push: push, Forced: true, Start: time.Now(), Reason: model.NewReasonStats(model.GlobalUpdate)}
-	res, _, err := g.Generate(p, wr, req)
+	res, _, err := g.Generate(p, wr, pushRequest(push))
 	if err != nil {
 		panic(fmt.Sprintf("generate %s: %v", typ, err))
 	}
-	out := make([]resource, 0, len(res))
-	for _, r := range res {
-		out = append(out, resource{name: r.Name, any: r.Resource})
-	}
-	return out
+	return toResources(res)
 }
 
 func edsNames(cds []resource) []string {
@@ -530,10 +601,90 @@ func ldsRefs(lds []resource) (routes []string, ecds []string) {
 var incrKinds = []kind.Kind{kind.VirtualService, kind.DestinationRule, kind.ServiceEntry, kind.Sidecar, kind.AuthorizationPolicy,
 	kind.Gateway, kind.EnvoyFilter, kind.PeerAuthentication, kind.Telemetry, kind.WasmPlugin, kind.RequestAuthentication}
 
+func pushRequest(push *model.PushContext) *model.PushRequest {
+	return &model.PushRequest{Push: push, Forced: true, Start: time.Now(), Reason: model.NewReasonStats(model.GlobalUpdate)}
+}
+
+func toResources(res model.Resources) []resource {
+	out := make([]resource, 0, len(res))
+	for _, r := range res {
+		out = append(out, resource{name: r.Name, any: r.Resource})
+	}
+	return out
+}
+
+func nameList(names []string) []resource {
+	out := make([]resource, 0, len(names))
+	for _, n := range names {
+		out = append(out, resource{name: n})
+	}
+	return out
+}
+
+// staleClusters: names a proxy may still watch for services that no longer exist.
+var staleClusters = []string{
+	"outbound|80||gone1.example.com", "outbound|80|v1|gone1.example.com", "outbound|80|v2|gone1.example.com", "outbound|9000||gone1.example.com",
+	"outbound|80||gone2.example.com", "outbound|443||gone2.example.com", "outbound|8080||gone3.default.svc.cluster.local", "inbound|9999||",
+}
+
+// deltaCDS runs the delta-aware CDS generator for an update that names two vanished services and two
+// existing ones, on a watch list that still contains clusters of the vanished services.
+func deltaCDS(w *world, p *model.Proxy, push *model.PushContext, cds []resource) (built, removed []resource) {
+	g, ok := w.s.Discovery.Generators[typeURL["CDS"]].(model.XdsDeltaResourceGenerator)
+	if !ok {
+		return nil, nil
+	}
+	watched := sets.New(staleClusters...)
+	updated := sets.New(
+		model.ConfigKey{Kind: kind.ServiceEntry, Name: "gone1.example.com", Namespace: "default"},
+		model.ConfigKey{Kind: kind.ServiceEntry, Name: "gone2.example.com", Namespace: "ns1"},
+		model.ConfigKey{Kind: kind.ServiceEntry, Name: "gone3.default.svc.cluster.local", Namespace: "default"},
+	)
+	n := 0
+	for _, r := range cds {
+		watched.Insert(r.name)
+		if _, _, h, _ := model.ParseSubsetKey(r.name); h != "" && n < 3 {
+			for _, svc := range push.ServicesForHostname(p, h) {
+				if updated.InsertContains(model.ConfigKey{Kind: kind.ServiceEntry, Name: string(h), Namespace: svc.Attributes.Namespace}) {
+					continue
+				}
+				n++
+			}
+		}
+	}
+	req := &model.PushRequest{Push: push, ConfigsUpdated: updated, Start: time.Now(), Reason: model.NewReasonStats(model.ServiceUpdate)}
+	res, del, _, _, err := g.GenerateDeltas(p, req, &model.WatchedResource{TypeUrl: typeURL["CDS"], ResourceNames: watched})
+	if err != nil {
+		panic(fmt.Sprintf("delta CDS: %v", err))
+	}
+	return toResources(res), nameList(del)
+}
+
+// deltaRemoved pushes one type on a bare delta connection whose watch list contains, next to what is
+// generated, names that no longer exist, and returns the removed_resources of the response.
+func deltaRemoved(w *world, p *model.Proxy, push *model.PushContext, typ string, current []resource, stale []string) []resource {
+	watched := sets.New(stale...)
+	for _, r := range current {
+		watched.Insert(r.name)
+	}
+	resp, err := pxds.VerifC17PushDelta(w.s.Discovery, p, &model.WatchedResource{TypeUrl: typeURL[typ], ResourceNames: watched}, pushRequest(push))
+	if err != nil {
+		panic(fmt.Sprintf("delta %s: %v", typ, err))
+	}
+	return nameList(resp.GetRemovedResources())
+}
+
 // snapshot generates everything once. With prev == nil the PushContext is built from scratch
 // (createNewContext); otherwise it is derived from prev as after an update of one config of kind
 // incrKinds[rep] (updateContext re-initialises the indexes of that kind and copies the others) - the
 // state is the same, so the output must be too.
+//
+// Keys: "<proxy>:<TYPE>" resources in response order. RDS and ECDS are built by the ConfigGenerator
+// from the requested names in sorted order (their response order is then the generator's own);
+// "<TYPE>.viaset" is the same request through the xDS generator, which walks the requested name SET
+// in Go map order (documented: UnsortedList). EDS only exists through the set. "DCDS" / "DCDS.removed":
+// delta-aware CDS; "DLDS.removed" / "DRDS.removed": removed_resources of a delta push; "RKEY": the
+// cache key of every sidecar route configuration.
 func (w *world) snapshot(prev *model.PushContext, rep int) (snapshot, *model.PushContext) {
 	env := w.s.Env()
 	w.s.Discovery.Cache.ClearAll()
@@ -552,18 +703,41 @@ func (w *world) snapshot(prev *model.PushContext, rep int) (snapshot, *model.Pus
 		p := setupProxy(w, ps.mk(), push)
 		cds := generate(w, p, push, "CDS", nil)
 		out[ps.name+":CDS"] = cds
-		out[ps.name+":EDS"] = generate(w, p, push, "EDS", edsNames(cds))
+		out[ps.name+":EDS.viaset"] = generate(w, p, push, "EDS", edsNames(cds))
 		lds := generate(w, p, push, "LDS", nil)
 		out[ps.name+":LDS"] = lds
 		routes, ecds := ldsRefs(lds)
-		out[ps.name+":RDS"] = generate(w, p, push, "RDS", routes)
+		rds, _ := w.s.ConfigGen.BuildHTTPRoutes(p, pushRequest(push), routes)
+		out[ps.name+":RDS"] = toResources(rds)
+		out[ps.name+":RDS.viaset"] = generate(w, p, push, "RDS", routes)
+		out[ps.name+":ECDS"], out[ps.name+":ECDS.viaset"] = nil, nil
 		if len(ecds) > 0 {
-			out[ps.name+":ECDS"] = generate(w, p, push, "ECDS", ecds)
-		} else {
-			out[ps.name+":ECDS"] = nil
+			for _, ec := range w.s.ConfigGen.BuildExtensionConfiguration(p, push, ecds, nil) {
+				out[ps.name+":ECDS"] = append(out[ps.name+":ECDS"], resource{name: ec.Name, any: protoconv.MessageToAny(ec)})
+			}
+			out[ps.name+":ECDS.viaset"] = generate(w, p, push, "ECDS", ecds)
 		}
 		if ps.name == "sidecar" {
 			out[ps.name+":NDS"] = generate(w, p, push, "NDS", nil)
+		}
+		// delta paths
+		out[ps.name+":DCDS"], out[ps.name+":DCDS.removed"] = deltaCDS(w, p, push, cds)
+		out[ps.name+":DLDS.removed"] = deltaRemoved(w, p, push, "LDS", lds, []string{"10.255.0.9_80", "10.255.0.1_443", "0.0.0.0_12345", "gone_listener"})
+		out[ps.name+":DRDS.removed"] = deltaRemoved(w, p, push, "RDS", toResources(rds), []string{"12345", "gone.example.com:80", "http.9999", "8081"})
+		// cache keys of the sidecar route configurations
+		if p.Type == model.SidecarProxy {
+			var keys []resource
+			for _, rn := range routes {
+				port, err := strconv.Atoi(rn)
+				if err != nil {
+					continue
+				}
+				_, _, rc := core.BuildSidecarOutboundVirtualHosts(p, push, rn, port, nil, model.DisabledCache{})
+				if rc != nil {
+					keys = append(keys, resource{name: rn, raw: fmt.Sprint(rc.Key())})
+				}
+			}
+			out[ps.name+":RKEY"] = keys
 		}
 	}
 	return out, push
@@ -571,6 +745,7 @@ func (w *world) snapshot(prev *model.PushContext, rep int) (snapshot, *model.Pus
 
 func resHash(r resource) string {
 	h := sha256.New()
+	h.Write([]byte(r.raw))
 	h.Write([]byte(r.any.GetTypeUrl()))
 	h.Write([]byte{0})
 	h.Write(r.any.GetValue())
